@@ -167,14 +167,28 @@ agraph (float[2,3,4] x) => (float[?,?,?] y)
 
 
 def fam_minmax(rng: Rng) -> str:
+    """Min/Max chains; variants with two chains hanging off the same value and with an initializer that already owns the name
+    the rule derives for its new constants (`<input>_min` / `<input>_max`)."""
     o1, o2 = rng.choice(["Min", "Max"]), rng.choice(["Min", "Max"])
     a, b = rng.choice([0.5, 1.0, 3.0, -2.0]), rng.choice([0.25, 2.0, 6.0, -1.0])
+    v = _variant(rng, [("single", 3), ("fanout", 2), ("name_taken", 1), ("fanout3", 1)])
+    extra_init, extra_body, outs = "", "", "float[4] y"
+    if v in ("fanout", "fanout3"):
+        extra_body = f"\n   t2 = {o2}(x, c2)\n   y2 = {o1}(t2, c1)"
+        outs += ", float[4] y2"
+        if v == "fanout3":
+            extra_body += f"\n   t3 = {o1}(x, c2)\n   y3 = {o2}(t3, c2)"
+            outs += ", float[4] y3"
+    if v == "name_taken":
+        extra_init = ", float x_min = {9.0}, float x_max = {-9.0}"
+        extra_body = "\n   z = Add(x_min, x_max)"
+        outs += ", float z"
     return f"""<ir_version: 10, opset_import: ["" : 20]>
-agraph (float[4] x) => (float[4] y)
-<float c1 = {{{a}}}, float c2 = {{{b}}}>
+agraph (float[4] x) => ({outs})
+<float c1 = {{{a}}}, float c2 = {{{b}}}{extra_init}>
 {{
    t = {o1}(x, c1)
-   y = {o2}(t, c2)
+   y = {o2}(t, c2){extra_body}
 }}"""
 
 
@@ -187,9 +201,21 @@ def fam_clip_relu(rng: Rng) -> str:
         "clip_clip": "t = Clip(x, lo, hi)\n   y = Clip(t, lo2, hi)",
         "relu_relu": "t = Relu(x)\n   y = Relu(t)",
     }[order]
+    v = _variant(rng, [("single", 3), ("fanout", 2), ("name_taken", 1), ("fanout3", 1)])
+    extra_init, outs = "", "float[4] y"
+    if v in ("fanout", "fanout3"):
+        body += "\n   u = Clip(x, lo2, hi)\n   y2 = Relu(u)"
+        outs += ", float[4] y2"
+        if v == "fanout3":
+            body += "\n   w = Relu(x)\n   y3 = Clip(w, lo, hi)"
+            outs += ", float[4] y3"
+    if v == "name_taken":
+        extra_init = ", float x_min = {9.0}, float x_max = {-9.0}"
+        body += "\n   z = Add(x_min, x_max)"
+        outs += ", float z"
     return f"""<ir_version: 10, opset_import: ["" : 20]>
-agraph (float[4] x) => (float[4] y)
-<float lo = {{{lo}}}, float hi = {{{hi}}}, float lo2 = {{{rng.choice([-3.0, 0.25])}}}>
+agraph (float[4] x) => ({outs})
+<float lo = {{{lo}}}, float hi = {{{hi}}}, float lo2 = {{{rng.choice([-3.0, 0.25])}}}{extra_init}>
 {{
    {body}
 }}"""
@@ -423,7 +449,7 @@ def fam_gelu(rng: Rng) -> str:
                 "   t6 = Add(t5, one)\n   t7 = Mul(half, t6)\n   y = Mul(xb, t7)")
     return f"""<ir_version: 10, opset_import: ["" : {rng.choice([18, 20])}]>
 agraph (float[2,{n}] x, float[{n}] bias) => (float[2,{n}] y)
-<float sqrt2 = {{1.4142135623730951}}, float one = {{1.0}}, float half = {{0.5}}, float three = {{3.0}}, float c044 = {{0.044715}},
+<float sqrt2 = {{{rng.choice(["1.4142135623730951", "1.4142135623730951", "1.4142135623730951", "1.4140625", "1.41421", "1.4142135"])}}}, float one = {{1.0}}, float half = {{0.5}}, float three = {{3.0}}, float c044 = {{0.044715}},
  float s2pi = {{0.7978845608028654}}>
 {{
    {pre}
@@ -862,7 +888,7 @@ agraph ({xdecl}, float[{a * b}] z) => (float[?,?] out)
 
 # families whose members walk through declared variants: a batch takes one member per variant (capped), so that every
 # special path of the rule's check() is in every batch; other families vary only in parameters and get 3 members
-N_VARIANTS = {"opset_twins": 20, "local_functions": 8, "user_rules": 12, "hardswish": 7, "conv_affine": 5, "expand_binary": 5, "reshape_matmul": 7, "scatter_nd": 4, "rms_norm": 4, "pad_conv": 12, "reshape_reshape": 8, "fold_chain": 10, "slice_split": 7, "const_if": 7}
+N_VARIANTS = {"minmax": 4, "clip_relu": 4, "opset_twins": 20, "local_functions": 8, "user_rules": 12, "hardswish": 7, "conv_affine": 5, "expand_binary": 5, "reshape_matmul": 7, "scatter_nd": 4, "rms_norm": 4, "pad_conv": 12, "reshape_reshape": 8, "fold_chain": 10, "slice_split": 7, "const_if": 7}
 
 
 def members_per_batch(family: str, default: int, cap: int = 10) -> int:
